@@ -30,7 +30,9 @@ RULE = ("seeded random scenarios on real loopback TCP / UNIX sockets and real th
         "handed over from another thread), random payload sizes and write fragmentation (TCP_NODELAY + yields), random "
         "server read-buffer sizes, client / server / worker-side close order, extra retains held by worker threads, "
         "injected cb_alloc / muggle_evloop_add_ctx (wrapped or node-allocation) / accept failures and natural poll "
-        "capacity rejection, exit from the loop thread, from another thread, or with a context still queued; each on "
+        "capacity rejection, exit from the loop thread, from another thread, or with a context still queued; bursts of "
+        "2..4 hand-overs from one or several threads whose wake-ups coalesce (before the loop thread exists / while it "
+        "is held in a callback) followed by data to each and a bounded wait for delivery; each on "
         "select, poll and epoll; event-loop pipe: 1..8 writer threads, injected partial reads / writes / EAGAIN; "
         "non-trivial = the log contains a failure branch, a worker release, or a fragmented read; distinct = distinct log text")
 TRUSTED_BASE = [
@@ -40,7 +42,8 @@ TRUSTED_BASE = [
     "the reference counter is the sequential saturating counter rspec of C04/Model.v; its use as an atomic step is "
     "justified by C04's refcnt_linearizable (imported, not re-proved)",
     "tie = trace inclusion: the extracted model replays the implementation's callback log (ocaml/c15_driver.ml); silent "
-    "steps (a release that does not reach zero, leaving the run loop) are inferred by the acceptor",
+    "steps (a release that does not reach zero, leaving the run loop, on_wake taking / releasing the queue mutex) are "
+    "inferred by the acceptor; the enqueue of a hand-over is placed between its 'hand' and 'handed' log lines",
     "harness/c15_shim.c interposers (-Wl,--wrap) for muggle_evloop_add_ctx, close, accept, read, write, malloc family",
 ]
 ASSUMPTIONS = [
@@ -150,7 +153,12 @@ def gen_socket(rng, name, be, tier, force=None):
             p.append("cclose %d" % k)
         progs[k] = p
     steps = []
-    if exit_conn is not None:
+    if len(handed) >= 2 and rng.chance(1, 3):
+        # hand-overs whose wake-ups coalesce: all before the loop thread exists
+        for k in sorted(handed):
+            progs[k].pop(0)
+        steps.append("prehand " + " ".join(map(str, sorted(handed))))
+    elif exit_conn is not None:
         # hand-overs happen-before anything that can make the loop thread exit
         for k in sorted(handed):
             steps.append(progs[k].pop(0))
@@ -177,6 +185,58 @@ def gen_socket(rng, name, be, tier, force=None):
     steps += wsteps
     if rng.chance(1, 2):
         steps.append("sync")
+    return V.Case(name, lines + steps, {"kind": "sock", "be": be, "seed": seed})
+
+
+def gen_burst(rng, name, be, tier):
+    """Directed: 2..4 muggle_socket_evloop_add_ctx calls land between two wake-up handlings (before the loop
+    thread exists, or while it is held inside a callback), from one or several threads; every handed-over
+    context then gets data and the script waits for its delivery."""
+    fam = rng.choice(["tcp", "unix"])
+    seed = rng.below(1 << 30) + 1
+    m = rng.range(2, 4)
+    kind = rng.choice(["prehand", "stall", "stallmt", "plain", "plainmt"])
+    lines = ["cfg be=%s fam=%s hints=64 pool=%d seed=%d rbuf=%d workers=%d" % (
+        be, fam, rng.choice([0, 1]), seed, rng.choice([7, 64, 4096]), 1)]
+    steps = []
+    if kind == "prehand":
+        ks = list(range(m))
+        steps.append("prehand " + " ".join(map(str, ks)))
+        if rng.chance(1, 2):
+            steps.append("conn %d" % m)
+            ks.append(m)
+    else:
+        # connection 0 is accepted; the loop thread is held in its cb_msg while the burst happens
+        ks = list(range(1, m + 1))
+        steps.append("conn 0")
+        if kind.startswith("stall"):
+            lines.append("trig 0 3 stall")
+        steps.append("send 0 5 2 3")
+        if not kind.startswith("stall"):
+            steps.append("sync")
+        steps.append(("burstmt " if kind.endswith("mt") else "burst ") + " ".join(map(str, ks)))
+        ks = [0] + ks
+    if rng.chance(1, 2):
+        lines.append("trig %d %d retain 0" % (ks[-1], rng.range(0, 8)))
+    for k in rng.shuffle(ks):
+        n = rng.choice([1, 9, 200, 4000])
+        steps.append("send %d %d %s" % (k, n, " ".join(map(str, _chunks(rng, n)))))
+    for k in ks:
+        steps.append("await %d" % k)
+    if rng.chance(1, 2):
+        # a second burst: wake-ups after the first backlog must still drain everything
+        ks2 = list(range(10, 10 + rng.range(2, 3)))
+        steps.append("burst " + " ".join(map(str, ks2)))
+        for k in ks2:
+            steps.append("send %d 33 5 28" % k)
+        for k in ks2:
+            steps.append("await %d" % k)
+        ks += ks2
+    for k in rng.shuffle(ks):
+        if rng.chance(1, 2):
+            steps.append("cclose %d" % k)
+    steps.append("sync")
+    steps.append("wrel 0")
     return V.Case(name, lines + steps, {"kind": "sock", "be": be, "seed": seed})
 
 
@@ -210,6 +270,8 @@ def generate(rng, tier):
         for i in range(4 if tier == "quick" else 20):
             c = gen_socket(r, "h-%s-%d" % (be, i), be, tier, {"nconn": r.range(2, 5), "hints": 2 if be == "poll" else 64})
             cases.append(c)
+        for i in range(8 if tier == "quick" else 40):
+            cases.append(gen_burst(r, "b-%s-%d" % (be, i), be, tier))
     r = rng.fork("pipe")
     for i in range(12 if tier == "quick" else 80):
         cases.append(gen_pipe(r, "p-%d" % i, tier))
@@ -221,6 +283,8 @@ def search(rng, diverging, tier):
     for be in BACKENDS:
         for i in range(60):
             out.append(gen_socket(rng, "search-%s-%d" % (be, i), be, tier))
+        for i in range(20):
+            out.append(gen_burst(rng, "search-b-%s-%d" % (be, i), be, tier))
     for i in range(20):
         out.append(gen_pipe(rng, "search-p-%d" % i, tier))
     return out
@@ -244,11 +308,12 @@ def model_cases(cases, impl_results):
 
 class _Ctx:
     __slots__ = ("by", "conn", "handed", "reg", "ann", "closecb", "rel", "relby", "fdc", "free", "holds",
-                 "got", "eof", "shut", "loopheld", "wzero", "freed_line")
+                 "got", "eof", "shut", "loopheld", "wzero", "freed_line", "hand_at", "handed_at")
 
     def __init__(self, by, conn):
         self.by, self.conn = by, conn
         self.handed = False
+        self.hand_at = self.handed_at = None     # log lines of "hand" (before add_ctx) / "handed" (after it returned)
         self.reg = None
         self.ann = self.closecb = self.rel = self.fdc = self.free = 0
         self.relby = None
@@ -262,9 +327,9 @@ class _Ctx:
 
 
 DISPATCH_OPS = {"addctx", "accepterr", "accepted", "allocfail", "alloc", "conn", "msg", "rd", "shut", "retain",
-                "close", "exitreq"}
+                "close", "exitreq", "wake", "stalled", "unstall"}
 LOOP_OPS = {"reg", "addctx", "accepterr", "accepted", "allocfail", "alloc", "conn", "free", "msg", "rd", "shut",
-            "retain", "close", "release", "exitreq"}
+            "retain", "close", "release", "exitreq", "wake", "stalled", "unstall"}
 
 
 def monitor(case, lines):
@@ -335,6 +400,7 @@ def _monitor_sock(case, lines):
     returned = False
     nextid = 0
     seenF = 0
+    wakes = []               # log lines of cb_wake = ends of on_wake
 
     def bad(n, msg):
         return "line %d (%s): %s" % (n, lines[n], msg)
@@ -357,7 +423,7 @@ def _monitor_sock(case, lines):
         if clearing and op in DISPATCH_OPS:
             return bad(n, "dispatch callback after the run loop started clearing its contexts")
         cid = None
-        if op in ("hand", "reg", "addctx", "alloc", "conn", "free", "msg", "rd", "shut", "retain", "close", "release",
+        if op in ("hand", "handed", "reg", "addctx", "alloc", "conn", "free", "msg", "rd", "shut", "retain", "close", "release",
                   "wrel", "wrelease", "wfree", "wshut", "halloc", "fdclose", "accepterr"):
             if w[1] == "new":
                 continue
@@ -380,7 +446,9 @@ def _monitor_sock(case, lines):
             c = ctxs.get(cid)
             if c is None:
                 return bad(n, "unknown context")
-            if c.free and not (op == "fdclose" and c.by == "accept" and c.reg == -1 and c.fdc == 0):
+            # "handed" only records that muggle_socket_evloop_add_ctx has returned in the handing thread: the loop
+            # may already have registered, closed and freed the context by then
+            if op != "handed" and c.free and not (op == "fdclose" and c.by == "accept" and c.reg == -1 and c.fdc == 0):
                 return bad(n, "context used after it was freed (freed at line %s)" % c.freed_line)
             if c.rel and op in ("msg", "rd", "close", "addctx", "conn", "retain", "shut", "reg", "hand", "release",
                                 "wrelease", "wshut", "wrel"):
@@ -389,7 +457,36 @@ def _monitor_sock(case, lines):
             if c.by != "user" or c.handed:
                 return bad(n, "hand-over of a context that is not a fresh user context")
             c.handed = True
+            c.hand_at = n
+        elif op == "handed":
+            if not c.handed or c.handed_at is not None:
+                return bad(n, "hand-over completed twice or never started")
+            c.handed_at = n
+        elif op == "wake":
+            # on_wake drains the whole queue: a context whose hand-over had returned before the previous
+            # on_wake ended was in the queue when this on_wake took the mutex
+            if wakes:
+                for d, x in sorted(ctxs.items()):
+                    if x.by == "user" and x.handed_at is not None and x.handed_at < wakes[-1] and x.reg is None and not x.rel:
+                        return bad(n, "context %d was handed over (line %d) before the previous wake-up handling ended "
+                                      "(line %d) and is still not registered after this one: on_wake left it queued" % (
+                                          d, x.handed_at, wakes[-1]))
+            wakes.append(n)
+        elif op == "await":
+            k, got_, sent_ = int(w[1]), int(w[2]), int(w[3])
+            if got_ < sent_ and not exiting and not clearing and not returned:
+                for d, x in sorted(ctxs.items()):
+                    if x.conn == k and (x.by == "user" or x.ann) and x.reg != -1 and not x.shut and not x.closecb and not x.rel:
+                        return bad(n, "context %d (%s): %d of %d bytes sent to it were not delivered while the loop was "
+                                      "running (registered=%s announced=%d)" % (
+                                          d, "handed over" if x.by == "user" else "accepted", sent_ - got_, sent_, x.reg, x.ann))
         elif op == "reg":
+            if c.by == "user":
+                # the queue is FIFO: nothing enqueued earlier may still be waiting
+                for d, x in sorted(ctxs.items()):
+                    if (x.by == "user" and d != cid and x.handed_at is not None and c.hand_at is not None
+                            and x.handed_at < c.hand_at and x.reg is None and not x.rel):
+                        return bad(n, "context %d registered although context %d, handed over earlier, is still queued" % (cid, d))
             if c.reg is not None:
                 return bad(n, "context registered twice")
             if c.by == "user" and not c.handed:
@@ -526,7 +623,7 @@ def _monitor_sock(case, lines):
 
 def nontrivial_key(case, lines):
     t = "\n".join(lines)
-    if any(k in t for k in ("allocfail", " -1", "wrel ", "accepterr", "R again")) or len(lines) > 40:
+    if any(k in t for k in ("allocfail", " -1", "wrel ", "accepterr", "R again", "stalled")) or len(lines) > 40:
         return t
     return None
 
@@ -542,6 +639,7 @@ def tally(dist, case, lines):
         return
     inc("backend=%s" % _kv(head, "be"))
     inc("family=%s" % _kv(head, "fam"))
+    nregs, users = 0, set()
     for l in lines:
         w = l.split()
         if not w:
@@ -565,6 +663,15 @@ def tally(dist, case, lines):
             inc("last_release_by_loop")
         elif w[0] in ("exitreq", "xexit"):
             inc("exit_" + w[0])
+        elif w[0] == "wake":
+            inc("wakeups_handled")
+            if nregs >= 2:
+                inc("wakeups_draining_2_or_more")
+            nregs = 0
+        if w[0] == "halloc":
+            users.add(w[1])
+        if w[0] == "reg" and w[1] in users:
+            nregs += 1
 
 
 MANIFEST = {
@@ -575,7 +682,9 @@ MANIFEST = {
                    "at most once, the bytes given to cb_msg are a prefix of the bytes sent and all of them at end of "
                    "stream, cb_close / cb_release / descriptor close / free happen at most once and free only at count "
                    "zero, nothing touches a released context, every context is freed once the loop has returned and the "
-                   "workers have released; the pipe delivers exactly the completed writes in lock order. Tied to the "
+                   "workers have released; on_wake cannot end before the hand-over queue is empty and takes it in queue "
+                   "order, however many add_ctx calls coalesced into the wake-up; the pipe delivers exactly the completed "
+                   "writes in lock order. Tied to the "
                    "code by trace inclusion of the real callback log (loopback TCP / UNIX sockets, real threads, "
                    "ASan) in the extracted model, plus an independent ownership / byte-equality / accounting monitor."),
     "design_ref": "DESIGN.md section 6 / C15",
